@@ -17,7 +17,7 @@
 From Coq Require Import ZArith List Bool Arith.
 From CrabV Require Import Base.ZInf Scalar.Itv Ir.Syntax Ir.Cfg Dom.ItvEnv Dom.ItvEnvSound Dom.ItvDomain
      Dom.ItvDomainSound Dom.ItvSolverSound Ana.Transformer Ana.FwdItv Ana.Backward Ana.BackwardSound
-     Ana.BackwardCheck.
+     Ana.BackwardCheck Ana.FwdItvEngineSound Ana.BwdItv Ana.BwdItvEngineSound.
 Import ListNotations.
 
 Theorem C11_statement_precondition : forall fresh good s inv post a b,
@@ -72,6 +72,63 @@ Example C11_example_division :
   e_at (bwd_block 99%N false bl inv EBot) y = mkI (Fin 3) (Fin 5).
 Proof. vm_compute. reflexivity. Qed.
 
+(* The model's own tables, WITHOUT the checker (instance of Fix/EngineSound.v on the reversed
+   CFG, Ana/BwdItvEngineSound.v): every program of the fragment with in-range edges, every
+   forward-invariant table, final value, parameter setting and fuel.
+   Good mode: the whole predicate Good.  Error mode: the violations of assertions located in
+   blocks from which the exit block can be reached (BadR); the backward iteration starts at
+   the exit block, so dead-end blocks are not visited (known finding C11 "deadend"). *)
+Theorem C11_model_tables_sound_good :
+  forall p fresh good exit_block final finv delay desc fuel wrev table,
+  prog_wfb p = true -> forallb block_bwd_ok (p_blocks p) = true ->
+  wto_build (p_rev_graph p) exit_block = Some wrev ->
+  bwd_run p wrev exit_block delay desc fuel fresh good finv final = Some table ->
+  forall n a, Good p exit_block final finv n a -> genv (table n) a.
+Proof. exact bwd_run_good_sound. Qed.
+
+Theorem C11_model_tables_sound_error :
+  forall p fresh exit_block final finv delay desc fuel wrev table,
+  prog_wfb p = true -> forallb block_bwd_ok (p_blocks p) = true ->
+  wto_build (p_rev_graph p) exit_block = Some wrev ->
+  bwd_run p wrev exit_block delay desc fuel fresh false finv final = Some table ->
+  forall n a, BadR p exit_block finv n a -> genv (table n) a.
+Proof. exact bwd_run_error_sound. Qed.
+
+(* BadR is Bad restricted, nothing else; they coincide when every block reaches the exit *)
+Theorem C11_restricted_violations_are_violations : forall p exit_block finv,
+  prog_wfb p = true -> forall n a, BadR p exit_block finv n a -> Bad p finv n a.
+Proof. exact BadR_Bad. Qed.
+
+Theorem C11_model_tables_sound_error_all_blocks_reach_exit :
+  forall p fresh exit_block final finv delay desc fuel wrev table,
+  prog_wfb p = true -> forallb block_bwd_ok (p_blocks p) = true ->
+  wto_build (p_rev_graph p) exit_block = Some wrev ->
+  all_blocks_reach_exit p wrev = true ->
+  bwd_run p wrev exit_block delay desc fuel fresh false finv final = Some table ->
+  forall n a, Bad p finv n a -> genv (table n) a.
+Proof. exact bwd_run_error_sound_Bad. Qed.
+
+Theorem C11_model_empty_entry_precondition_means_no_violation :
+  forall p fresh exit_block final finv delay desc fuel wrev table,
+  prog_wfb p = true -> forallb block_bwd_ok (p_blocks p) = true ->
+  wto_build (p_rev_graph p) exit_block = Some wrev ->
+  all_blocks_reach_exit p wrev = true ->
+  bwd_run p wrev exit_block delay desc fuel fresh false finv final = Some table ->
+  e_is_bot (table 0) = true -> forall a, ~ Bad p finv 0 a.
+Proof. exact bwd_run_empty_entry_means_no_violation. Qed.
+
+(* the ordering of the reversed graph exists for every exit block *)
+Theorem C11_model_reversed_wto_total : forall p exit_block,
+  prog_wfb p = true -> exit_block < length (p_blocks p) ->
+  exists wrev, wto_build (p_rev_graph p) exit_block = Some wrev.
+Proof. exact wto_build_rev_total. Qed.
+
+(* the full-strength error-mode statement (all violations, also in dead-end blocks) is false
+   of the code: known finding C11 "deadend" *)
+Definition C11_model_tables_error_statement : Prop := bwd_model_error_unrestricted_statement.
+Theorem C11_model_tables_error_statement_refuted : ~ C11_model_tables_error_statement.
+Proof. exact bwd_model_error_unrestricted_refuted. Qed.
+
 Print Assumptions C11_statement_precondition.
 Print Assumptions C11_failing_assert_in_precondition.
 Print Assumptions C11_backward_division.
@@ -80,3 +137,10 @@ Print Assumptions C11_block_error_precondition.
 Print Assumptions C11_error_tables_sound.
 Print Assumptions C11_good_tables_sound.
 Print Assumptions C11_empty_entry_precondition_means_no_violation.
+Print Assumptions C11_model_tables_sound_good.
+Print Assumptions C11_model_tables_sound_error.
+Print Assumptions C11_restricted_violations_are_violations.
+Print Assumptions C11_model_tables_sound_error_all_blocks_reach_exit.
+Print Assumptions C11_model_empty_entry_precondition_means_no_violation.
+Print Assumptions C11_model_reversed_wto_total.
+Print Assumptions C11_model_tables_error_statement_refuted.
